@@ -386,6 +386,36 @@ def message_text_intact(ck, F, rid, consequence):
                 verdict = None
         ck.ob(rid, sitestr(ct), verdict, "LogMessage stores the message text it is given, unchanged" if verdict else
               "LogMessage initialises its text with %s instead of the message it was given%s: %s" % (describe(ini[0]["e"])[:60] if ini else "nothing", why, consequence), key="LogMessage|text-intact")
+    # a copy of the message (the asynchronous hand-off, a queued signal sink) carries the same text and formatted text
+    for cc_ in [c for c in F.fn_all(LMc + "::LogMessage") if c.d.get("copyctor") and c.body is not None and not c.d.get("implicit") and not c.d.get("defaulted")]:
+        srcd = cc_.params[0]["decl"] if cc_.params else None
+        for fld in ("m_message", "m_formattedMessage"):
+            ini = [i for i in cc_.inits if i.get("member") == LMc + "::" + fld and isinstance(i.get("e"), dict) and i.get("written")]
+            if not ini:
+                continue            # not copied at all: C03-O1's business (every member)
+            e_ = skip_copies(ini[0]["e"])
+            same = isinstance(e_, dict) and e_.get("k") == "member" and (e_.get("name") or "").endswith("::" + fld) and is_ref_to(skip_copies(e_.get("base") or {}), srcd)
+            LOSSY2 = ("utf16", "unicode", "constData", "data", "fromUtf16", "fromUtf8", "toUtf8", "fromLatin1", "toLatin1", "fromLocal8Bit", "toLocal8Bit", "fromRawData", "trimmed", "simplified", "normalized", "left", "mid", "chopped")
+            verdict = True if same else None
+            why = ""
+            if not same:
+                # helpers of the class are looked into (one level): a deep copy through a pointer without a length stops at the first U+0000,
+                # fromUtf16() also swallows a leading byte-order mark
+                nodes = list(walk(e_))
+                for x in list(nodes):
+                    h_ = F.fns.get(x.get("fn")) if x.get("k") == "call" else None
+                    if h_ is not None and h_.body is not None and in_lib(h_.file):
+                        nodes += list(h_.all_nodes())
+                calls_ = [x for x in nodes if x.get("k") == "call"]
+                ptr_only = [x for x in calls_ if strip_tmpl(x.get("callee") or "").split("::")[-1] in ("fromUtf16", "fromUcs4", "fromWCharArray") and len([a for a in x.get("args", []) if a.get("k") != "defaultarg"]) == 1] + \
+                           [x for x in nodes if x.get("k") == "construct" and strip_tmpl(x.get("class") or "") == "QString" and len([a for a in x.get("args", []) if a.get("k") != "defaultarg"]) == 1 and
+                            is_call(skip_copies(x["args"][0]), ("QString::unicode", "QString::constData", "QString::data", "QString::utf16"))]
+                if ptr_only:
+                    verdict, why = False, " (a pointer without a length: the text ends at the first U+0000%s)" % (", and fromUtf16 removes a leading U+FEFF" if any("fromUtf16" in (x.get("callee") or "") for x in ptr_only) else "")
+                elif any(strip_tmpl(x.get("callee") or "").split("::")[-1] in ("trimmed", "simplified", "normalized", "left", "mid", "chopped", "toLatin1", "fromLatin1", "toLocal8Bit", "fromLocal8Bit") for x in calls_):
+                    verdict = False
+            ck.ob(rid, sitestr(cc_, ini[0]["e"]), verdict, "a copy of the message carries the source's %s" % fld if verdict else
+                  "the copy constructor initialises %s with %s%s: behind a copy (asynchronous mode, queued signal sink) %s" % (fld, describe(ini[0]["e"])[:60], why, consequence), key="LogMessage(copy)|text-intact|%s" % fld)
     acc = F.fn(LMc + "::message")
     rs = returns(acc)
     oka = len(rs) == 1 and is_this_field(rs[0].get("e"), LMc + "::m_message")
